@@ -148,6 +148,43 @@ def corrupt_token_valid(run):
     return None
 
 
+def corrupt_unwind(run):
+    """a token that was in scope of the panic is left out of the unwind event: it stays live, so the
+    quiescence observed afterwards (counters zero) contradicts the contract"""
+    for e in run:
+        if e.get("op") == "unwind" and e.get("ids") and run[0].get("subject") == "tm:panic" and run[0].get("variant") != "NoWriteReadOnly":
+            e["ids"] = e["ids"][1:]
+            return run
+    return None
+
+
+def corrupt_quiescent(run):
+    """after the panic was survived the writer counter stays at 1"""
+    for e in run:
+        if e.get("op") == "obs_quiescent":
+            e["aw"] += 1
+            return run
+    return None
+
+
+def corrupt_must_writer(run):
+    """after the panic was survived a writer request is refused although no writer token is live"""
+    if run[0].get("subject") != "tm:panic" or run[0].get("variant") != "OneWriteMultiRead":
+        return None
+    out = []
+    skip = None
+    for e in run:
+        if skip is None and e.get("op") == "acq" and e.get("ok") and e.get("kind") == "W" and not e.get("scoped") and any(x.get("op") == "unwind" for x in out):
+            skip = e["id"]
+            out.append({"op": "acq", "m": e["m"], "kind": "W", "ok": False, "must": True})
+            continue
+        if skip is not None and e.get("op") == "rel_start" and e.get("id") == skip:
+            skip = -1
+            continue
+        out.append(e)
+    return out if skip == -1 else None
+
+
 def corrupt_use(run):
     for e in run:
         if e.get("op") == "use":
@@ -263,6 +300,10 @@ def run(ctx):
             raise vlib.ToolError("vacuity: level %s never scheduled" % lv)
         if s_q["_rc"] == 0 and not s_q.get("stats", {}).get("level:" + lv):
             raise vlib.ToolError("vacuity: level %s never in a sequential history" % lv)
+    if s_q["_rc"] == 0 and s_q.get("panic_histories", 0) < 25:
+        raise vlib.ToolError("vacuity: panic / unwind histories missing (5 scenarios x 5 levels)")
+    if not (s_r.get("ops", {}).get("PR") and s_r.get("ops", {}).get("PW")):
+        raise vlib.ToolError("vacuity: no scheduled run with a panicking with_*_token closure")
     for k in () if s_q["_rc"] != 0 else ("scoped_ok", "scoped_err", "scoped_displaces", "acq_cached", "uc_put", "uc_get_hit", "with_version_manager", "validate",
               "use_reader", "use_writer", "reclaim_freed", "epoch_freed", "drain_bulk32"):
         if not s_q.get("stats", {}).get(k):
@@ -304,6 +345,9 @@ def run(ctx):
         (seq_files, corrupt_level_facts, "OneWriteMultiRead reports allows_concurrent_writers"),
         (seq_files, corrupt_token_valid, "live token of a closure reports is_valid() = false"),
         (seq_files, corrupt_use, "token lent to insert/lookup/contains_with_token is not a live token"),
+        (seq_files[::-1], corrupt_unwind, "a token in scope of a caught panic is still counted after the unwinding"),
+        (seq_files[::-1], corrupt_quiescent, "active_writers = 1 at quiescence after a survived panic"),
+        (seq_files[::-1], corrupt_must_writer, "writer refused at quiescence after a survived panic (OneWriteMultiRead)"),
     ])
     # ---- evidence
     cov = ctx.cov
@@ -320,6 +364,7 @@ def run(ctx):
     cov["random_schedule_ops"] = s_r.get("ops", {})
     cov["sequential_cache_histories"] = s_q.get("runs", 0)
     cov["sequential_history_stats"] = s_q.get("stats", {})
+    cov["panic_unwind_histories"] = s_q.get("panic_histories", 0)
     cov["stress_events"] = s_s.get("events", 0)
     cov["stress_scoped_rounds"] = s_s.get("scoped_rounds", 0)
     cov["model_vs_real_step_structure_differs_in_runs"] = drift
